@@ -13,7 +13,7 @@ LEVEL = "exploration"
 WORKERS = {"quick": 8, "thorough": 16}
 BUDGET = {"quick": 150, "thorough": 420}
 MIN_NONTRIVIAL = {"quick": 3000, "thorough": 40000}
-REQUIRED_HOOKS = ["parse", "tree_dump", "corpus", "lookalike-pair"]
+REQUIRED_HOOKS = ["parse", "tree_dump", "corpus", "lookalike-pair", "second-parser-parse"]
 RULE = (
     "Intended trees are built by the harness (operators: 14 binary, ! and -, ?:, .f, .f(), .f(x), [i], g(x), g(x,y), list, map, message construction, has()), "
     "printed (a) with the minimal parentheses CEL's precedence table requires, (b) fully parenthesised, (c) with random whitespace and // comments, and parsed "
@@ -453,7 +453,57 @@ def run(ctx):
                 check_lookalikes(env, t, t2, rnd)
         if j % 1999 == 0:
             acc.sample({"text": lang.to_text(t), "tree": norm(larkconv.sexpr(t))})
+    second_parser_phase(ctx, env, items)
     core.celpy().CELParser.CEL_PARSER = None
+
+
+KEYWORD_TEXTS = [
+    "true", "false", "null", "x == true", "true ? false : null", "[true, false, null]", "!true", "!false || null == x", "{true: false, 'n': null}", "f(true, null)",
+    "true.f", "x.true", "true in [false]", "truex", "nullable", "falsey && true", "- true", "true[0]", "a ? true : false ? null : true", "true // false\n && null",
+]
+
+
+def second_parser_phase(ctx, env, items):
+    """The parser an application gets SECOND in a process: for the other kind of tree node, obtained through Environment (as
+    applications do) while the first parser exists.  Every text must give the tree the first parser gives, with true/false/null as
+    literals, and must round-trip through the dump."""
+    acc = env.acc
+    rnd = ctx.rnd
+    c = core.celpy()
+    other_runner = c.InterpretedRunner if env.tc == "TranspilerTree" else c.CompiledRunner
+    app_env = c.Environment(runner_class=other_runner)
+    second = Env.__new__(Env)
+    second.acc, second.cp, second.parser = acc, env.cp, app_env.cel_parser
+    second.tc = ("lark.Tree" if env.tc == "TranspilerTree" else "TranspilerTree") + " (second parser of the process)"
+    acc.extra["tree_classes"] = acc.extra.get("tree_classes", []) + [second.tc]
+    texts = KEYWORD_TEXTS + HAND + [it["expr"] for j, it in enumerate(items) if (j % max(1, ctx.nworkers * 3)) == ctx.worker]
+    for _ in range(ctx.scale(800, 16000)):
+        t = rand_tree(rnd, rnd.randint(1, 6), rnd.choice([0.3, 0.8]))
+        try:
+            texts.append(lang.to_text(t))
+        except ValueError:
+            pass
+    for text in texts:
+        try:
+            _, first_sx = env.parse_sx(text)
+        except Exception:
+            first_sx = None
+        try:
+            tree2, second_sx = second.parse_sx(text)
+        except larkconv.Unsupported:
+            continue
+        except Exception:
+            second_sx, tree2 = None, None
+        acc.hook("second-parser-parse")
+        same = first_sx == second_sx
+        lit_ok = tree2 is None or second.literal_kinds_ok(tree2)
+        acc.cell("second-parser", env.tc, "agree" if same and lit_ok else "differ")
+        if not lit_ok:
+            acc.violation("keyword-literal-parsed-as-identifier second-parser", f"[{second.tc}] {text!r}: true/false/null parsed as identifier", {"kind": "second-parser", "text": text, "tree_class": env.tc})
+        elif not same:
+            acc.violation("second-parser-tree-differs-from-first", f"{text[:100]!r}: parsed as {str(second_sx)[:100]} by the {second.tc}, as {str(first_sx)[:100]} by the first ({env.tc})", {"kind": "second-parser", "text": text, "tree_class": env.tc})
+        elif tree2 is not None:
+            check_text(second, text, "second-parser")
 
 
 def failing_dump(env: Env, rnd):
@@ -513,6 +563,21 @@ def replay(case):
             lines.append(f"{text!r} -> {core.jkey(got)[:200]} (intended {core.jkey(want)[:200]})")
         return ok, "\n".join(lines)
     text = case["text"]
+    if case["kind"] == "second-parser":
+
+        class C:
+            worker, nworkers, rnd = 0, 10**9, __import__("random").Random(0)
+
+            def scale(self, a, b):
+                return 1
+
+        saved = KEYWORD_TEXTS[:]
+        KEYWORD_TEXTS[:] = [text]
+        try:
+            second_parser_phase(C(), env, [])
+        finally:
+            KEYWORD_TEXTS[:] = saved
+        return not acc.violations, f"{text!r}\n" + "\n".join(v["what"] for v in acc.violations[:3])
     if case["kind"] in ("roundtrip", "text"):
         check_text(env, text, "replay")
         return not acc.violations, f"{text!r}\n" + "\n".join(v["what"] for v in acc.violations)
